@@ -313,6 +313,14 @@ impl Response {
                 let col_count = u32::from_le_bytes(payload[0..4].try_into().unwrap()) as usize;
                 offset += 4;
 
+                // Every string carries at least its 4-byte length prefix: counts that the
+                // payload cannot hold are rejected before anything is allocated for them.
+                if col_count > (payload.len() - offset) / 4 {
+                    return Err(TcpError::InvalidMessage(
+                        "Column count exceeds payload".into(),
+                    ));
+                }
+
                 let mut columns = Vec::with_capacity(col_count);
 
                 for _ in 0..col_count {
@@ -327,6 +335,15 @@ impl Response {
                 let row_count =
                     u32::from_le_bytes(payload[offset..offset + 4].try_into().unwrap()) as usize;
                 offset += 4;
+
+                if col_count == 0 && row_count != 0 {
+                    return Err(TcpError::InvalidMessage("Rows without columns".into()));
+                }
+                if row_count.saturating_mul(col_count) > (payload.len() - offset) / 4 {
+                    return Err(TcpError::InvalidMessage(
+                        "Row count exceeds payload".into(),
+                    ));
+                }
 
                 let mut data = Vec::with_capacity(row_count);
                 for _ in 0..row_count {
